@@ -1,8 +1,9 @@
-CONSTANTS UpperClosed = TRUE FirstClosed = TRUE ContractFaithful = TRUE N = 2
+CONSTANTS UpperClosed = TRUE FirstClosed = TRUE ContractFaithful = TRUE InputInverse = TRUE N = 2
 INIT Init
 NEXT Next
 INVARIANT InvContract
 INVARIANT InvCommute
 INVARIANT InvSameGrid
 INVARIANT InvBases
+INVARIANT InvReshape
 CHECK_DEADLOCK FALSE
